@@ -200,7 +200,9 @@ Theorem C19_fisher_total_util_refuted :
               kle Qc_OF (c0 Qc_OF) w /\ exists M, mu_fisher Qc_OF eps m m p G = MOk M) items.
 Proof. exists (Q2Qc (1 # 100000000)%Q), 3%nat, 2%nat, [(1%Qc, w_p, w_G)]. split; [vm_compute; reflexivity|].
   constructor; [|constructor]. split; [apply Qcleb_spec; vm_compute; reflexivity|].
-  eexists. vm_compute. reflexivity. Qed.
+  assert (E : match mu_fisher Qc_OF (Q2Qc (1 # 100000000)%Q) 3 3 w_p w_G with MOk _ => true | MErr _ => false end = true)
+    by (vm_compute; reflexivity).
+  destruct (mu_fisher Qc_OF (Q2Qc (1 # 100000000)%Q) 3 3 w_p w_G) as [M|c]; [now exists M|discriminate E]. Qed.
 Print Assumptions C19_fisher_total_util_refuted.
 
 (* ---- Cramer-Rao bound and left inverse: the numerical kernels are pinned down by their certificates ---- *)
